@@ -145,7 +145,8 @@ def run(prop, tier, seed, only_replay=None):
                     ctx.exhaustive = False
                 scns = res["json"]
                 if job.get("kind", "scenarios") == "scenarios":
-                    scns.sort(key=lambda s: json.dumps(s, sort_keys=True))
+                    keyed = {json.dumps(s, sort_keys=True): s for s in scns}     # TLC may reach one state twice
+                    scns = [keyed[k] for k in sorted(keyed)]
                     if not ctx.samples and scns:
                         ctx.samples.append(scns[len(scns) // 2])
                     v, c, n, calls = replay_all(modname, scns)
